@@ -4,7 +4,7 @@ import random
 
 from vf import engine_p
 from vf import execharness as H
-from vf.props.c04 import compare
+from vf.props.c04 import _below, abandoned_below, compare
 from vf.report import MachineryDefect, Run
 
 MUTATIONS = [
@@ -74,10 +74,11 @@ def _chunk(args):
                 if got["outcome"] != "result":
                     fails.append(("mutation:completes", ww, "mutation did not produce a result: %s %r" % (got["outcome"], got.get("exc"))))
                 else:
-                    bad = compare(exp, got)
+                    gone = abandoned_below(world)
+                    bad = compare(exp, got, ignore_below=gone)
                     if bad:
                         fails.append(("mutation:result-in-document-order", ww, bad[1]))
-                    bad2 = serial_contract(got["log"], top, paths)
+                    bad2 = serial_contract([ev for ev in got["log"] if not _below(ev[1], gone)], top, [p_ for p_ in paths if not _below(p_, gone)])
                     if bad2:
                         fails.append(("mutation:top-level-fields-run-serially", ww, "%s, order %r: %s" % (cfg, sched.taken, bad2)))
                 prefix = H.next_prefix(sched) if cfg in ("executor-threadpool", "executor-asyncio") else None
